@@ -246,6 +246,15 @@ def oracle(case):
 					bad.append('the attributes username / password of the parsed element are %r, composed from %r' % (attrs, (ut, pt)))
 			except Exception as ex:
 				bad.append('reading username / password of the parsed element raised %s: %s' % (exc_name(ex), ex))
+		# one credential handed over as octets, the other as text (either order in the mapping): the same field
+		if ut is not None and u.isascii() and p.isascii():
+			for how, mp in (('octets then text', {'username': u, 'password': pt}), ('text then octets', {'username': ut, 'password': p}), ('password first', {'password': p, 'username': ut})):
+				try:
+					mixed = bytes(element_cls(name)('Basic', mp))
+					if mixed != value:
+						bad.append('credentials handed over as %s compose %r, as octets %r' % (how, mixed[:80], value[:80]))
+				except Exception as ex:
+					bad.append('credentials handed over as %s raised %s' % (how, exc_name(ex)))
 		# looking at an element (repr(), %r in a log line, str()) does not change it
 		try:
 			el0 = element_cls(name)('Basic', {'username': u, 'password': p})
